@@ -300,6 +300,11 @@ class Extract(Function):
     def get_special_params_sql(self, **kwargs):
         return "FROM {field}".format(field=self.field.get_sql(**kwargs))
 
+    @builder
+    def replace_table(self, current_table, new_table):
+        self.args = [param.replace_table(current_table, new_table) for param in self.args]
+        self.field = self.field.replace_table(current_table, new_table)
+
 
 # Null Functions
 class IsNull(Function):
